@@ -12,9 +12,10 @@ from . import source as S
 from .engine import (PathEnd, Unsupported, PyRaise, ReturnSig, BreakSig, ContinueSig, Universal, EmptyV, State, Obligation, sort_key)
 from .interp import Frame, is_exc_subclass
 from .calls import Calls
+from .dyn import Dyn
 
 
-class Verifier(Calls):
+class Verifier(Dyn):
     def __init__(self, reg, sources, fid, opts=None):
         super().__init__(reg, sources, fid, opts)
         self.fi = sources.func(fid)
@@ -87,6 +88,9 @@ class Verifier(Calls):
         if a.kwarg:
             names.append(a.kwarg.arg)
         for p in names:
+            if p == names[0] and self.fi.kind == "class" and p not in c.types:
+                binding[p] = VClass(self.fi.cls, self.fi.module)
+                continue
             if p not in c.types:
                 raise Unsupported("parameter %s of %s has no declared type" % (p, self.fid))
             binding[p] = self.sym(c.types[p], p, record_input=True)
@@ -94,6 +98,8 @@ class Verifier(Calls):
             self.st.ghost[g] = self.sym(ty, "ghost_" + g, record_input=True)
         self.st.env = dict(binding)
         self.frame.env = self.st.env
+        if node.name == "__init__" and self.fi.cls and isinstance(binding.get(names[0]), VEnt):
+            self.class_defaults(binding[names[0]])
         for cl in c.requires:
             self.assume_clause(cl, spec_env=binding)
         if not self.feasible(z3.BoolVal(True)):
@@ -137,6 +143,34 @@ class Verifier(Calls):
                     self.prove_clause("raises[%s]/%d" % (entry, j), cl, kind="post-exc", spec_env=env3, old=old)
         except (BreakSig, ContinueSig):
             raise Unsupported("break/continue outside loop")
+
+    def class_defaults(self, ent):
+        """A constructor starts from the class-level defaults: fields whose class (or a base) declares `f = None` are None."""
+        mod, cls = self.reg.entity_methods[ent.cls]
+        for f, fty in self.reg.entities[ent.cls].items():
+            if isinstance(fty, (TDict, TOrdSet, TList, TSet, TStack)):
+                continue
+            seen, stack = set(), [(mod, cls)]
+            while stack:
+                m, c = stack.pop(0)
+                if (m, c) in seen:
+                    continue
+                seen.add((m, c))
+                node = self.src.module(m).classes.get(c)
+                hit = False
+                for st_ in (node.body if node else []):
+                    tgt = None
+                    if isinstance(st_, ast.Assign) and len(st_.targets) == 1 and isinstance(st_.targets[0], ast.Name):
+                        tgt, val = st_.targets[0].id, st_.value
+                    elif isinstance(st_, ast.AnnAssign) and isinstance(st_.target, ast.Name) and st_.value is not None:
+                        tgt, val = st_.target.id, st_.value
+                    if tgt == f and isinstance(val, ast.Constant) and val.value is None:
+                        hit = True
+                if hit:
+                    if isinstance(fty, (TOpt, TObj)):
+                        self.st.fields[(ent.oid, f)] = self.coerce(VNone, fty)
+                    break
+                stack = self.src.class_bases(m, c) + stack
 
     def frame_obligations(self, old):
         """Frame condition: a field of an object that existed at entry, or a heap attribute of a pre-existing opaque object,
